@@ -9,23 +9,28 @@ use serde::{Deserialize, Serialize};
 use std::sync::atomic::{AtomicU64, Ordering};
 
 #[derive(Clone, Debug, Serialize, Deserialize)]
-pub enum Rand { Fresh, Fixed { e: u64, p: u64 }, EOnly { e: u64 }, POnly { p: u64 } }
+pub enum Rand { Fresh, Fixed { e: u64, p: u64 }, EOnly { e: u64 }, POnly { p: u64 }, /// only one half of the ephemeral pair is supplied (private or public): the API then draws a fresh pair
+    EHalf { e: u64, private_half: bool } }
 
 #[derive(Clone, Debug, Serialize, Deserialize)]
-pub struct CaseA { pub plain: Plain, pub s: u64, pub r: u64, pub rand: Rand, pub prs: RSched, pub cws: WSched, pub crs: RSched, pub pws: WSched }
+pub struct CaseA { pub plain: Plain, pub s: u64, pub r: u64, pub rand: Rand, pub prs: RSched, pub cws: WSched, pub crs: RSched, pub pws: WSched,
+    /// encryptions done on the same thread just before the one under test, each (sender, recipient) drawn from
+    /// {this case's sender, this case's recipient, a third party}: the result must not depend on what the library did before
+    #[serde(default)] pub before: Vec<(u8, u8)> }
 
 #[derive(Clone, Debug, Serialize, Deserialize)]
 pub struct CaseB { pub cs: u32, pub reads: Vec<usize>, pub wsel: u8, pub aad_pass: bool, pub seed: u64 }
 
 pub fn rand_strategy() -> impl Strategy<Value = Rand> {
-    prop_oneof![Just(Rand::Fresh), (any::<u64>(), any::<u64>()).prop_map(|(e, p)| Rand::Fixed { e, p }), any::<u64>().prop_map(|e| Rand::EOnly { e }), any::<u64>().prop_map(|p| Rand::POnly { p })]
+    prop_oneof![Just(Rand::Fresh), (any::<u64>(), any::<u64>()).prop_map(|(e, p)| Rand::Fixed { e, p }), any::<u64>().prop_map(|e| Rand::EOnly { e }), any::<u64>().prop_map(|p| Rand::POnly { p }), (any::<u64>(), any::<bool>()).prop_map(|(e, private_half)| Rand::EHalf { e, private_half })]
 }
 
 pub fn strat_a(max: usize) -> impl Strategy<Value = CaseA> {
     gen::plain_strategy(max).prop_flat_map(|plain| {
         let l = plain.len;
         (Just(plain), any::<u64>(), any::<u64>(), rand_strategy(), gen::rsched_for(l), gen::wsched_for(l + 200), gen::rsched_for(l + 200), gen::wsched_for(l))
-    }).prop_map(|(plain, s, r, rand, prs, cws, crs, pws)| CaseA { plain, s, r: if r % 16 == 0 { s } else { r }, rand, prs, cws, crs, pws })
+    }).prop_flat_map(|t| (Just(t), prop_oneof![2 => Just(Vec::new()), 1 => proptest::collection::vec((0u8..3, 0u8..3), 1..4)]))
+      .prop_map(|((plain, s, r, rand, prs, cws, crs, pws), before)| CaseA { plain, s, r: if r % 16 == 0 { s } else { r }, rand, prs, cws, crs, pws, before })
 }
 
 pub static SPEC_AGREE: AtomicU64 = AtomicU64::new(0);
@@ -35,7 +40,22 @@ pub fn check_a(c: &CaseA) -> CheckResult {
     let p = c.plain.bytes();
     // one case in sixteen: the sender encrypts to their own key (S and R are the same key pair)
     let s = kx::ident(c.s, "S"); let r = if c.r == c.s { s.clone() } else { kx::ident(c.r, "R") };
-    let (e, pl) = match c.rand { Rand::Fresh => (None, None), Rand::Fixed { e, p } => (Some(gen::key32(e, "E")), Some(gen::key32(p, "P"))), Rand::EOnly { e } => (Some(gen::key32(e, "E")), None), Rand::POnly { p } => (None, Some(gen::key32(p, "P"))) };
+    let third = kx::ident(c.s ^ c.r ^ 0x3333, "T");
+    for (i, (a, b)) in c.before.iter().enumerate() {
+        let who = |x: u8| match x % 3 { 0 => &s, 1 => &r, _ => &third }; let (bs, br) = (who(*a), who(*b)); let msg = gen::bytes_from(c.s ^ i as u64 ^ 0x77, 40 + i);
+        let f = kx::key_encrypt_simple(&msg, bs, &br.pk, None, None).map_err(|e| format!("an earlier encryption on the same thread failed: {}", e))?;
+        let (dr, dsh) = kx::key_decrypt(&f, &RSched::full(), &WSched::all(), None, &br.sk, &br.pk);
+        ensure!(matches!(dr, kx::DecRes::Ok(Some(x)) if x == bs.pk) && *dsh.sink.borrow() == msg, "encryption #{} of a sequence on one thread ({:?} -> {:?} among sender / recipient / third party of this case) does not decrypt to its input and sender: {:?}", i, a % 3, b % 3, dr);
+    }
+    if let Rand::EHalf { e, private_half } = c.rand {
+        let eb = gen::key32(e, "E"); let epub = kspec::x25519_base(&eb);
+        let (res, esh) = kx::key_encrypt_halves(&p, &c.prs, &c.cws, &s.sk, &s.pk, &r.pk, if private_half { Some(&eb) } else { None }, if private_half { None } else { Some(&epub) }, None);
+        ensure!(res.is_ok(), "key_encrypt with only the {} half of an ephemeral pair supplied failed: {:?}", if private_half { "private" } else { "public" }, res);
+        let ct = esh.sink.take(); let (dres, dsh) = kx::key_decrypt(&ct, &c.crs, &c.pws, None, &r.sk, &r.pk);
+        ensure!(matches!(dres, kx::DecRes::Ok(Some(x)) if x == s.pk) && *dsh.sink.borrow() == p, "a file made with only the {} half of an ephemeral pair supplied does not decrypt to the plaintext and sender: {:?}", if private_half { "private" } else { "public" }, dres);
+        return ok(true, "ephemeral-half");
+    }
+    let (e, pl) = match c.rand { Rand::EHalf { .. } => (None, None), Rand::Fresh => (None, None), Rand::Fixed { e, p } => (Some(gen::key32(e, "E")), Some(gen::key32(p, "P"))), Rand::EOnly { e } => (Some(gen::key32(e, "E")), None), Rand::POnly { p } => (None, Some(gen::key32(p, "P"))) };
     let (res, esh) = kx::key_encrypt(&p, &c.prs, &c.cws, None, &s.sk, &s.pk, &r.pk, e.as_ref(), pl.as_ref());
     ensure!(res.is_ok(), "key_encrypt failed on a healthy source and sink: {:?}", res);
     let ct = esh.sink.take();
